@@ -50,6 +50,14 @@ def scenarios(tier):
             out.append((point, 0, f, 3))
     out.append(("writer.loop", 1, 0, 3))
     out.append(("poller.send", 2, 0, 3))
+    # a chronyd that answers every request at once, never with tracking data (5), or with a datagram that is no
+    # reply at all (6), while the writer dies: whatever the poller does about such answers must not keep it from
+    # its report and its mailbox
+    for mode in (5, 6):
+        for point, nth in (("writer.ready", 0), ("writer.loop", 0), ("writer.loop", 1)):
+            out.append((point, nth, 0, mode))
+        out.append(("writer.loop", 0, 1, mode))
+        out.append(("poller.wait", 1, 0, mode))
     # another process holds an exclusive flock and an exclusive record lock on the segment file (a second
     # daemon, a lingering earlier instance, any client - the file is world-readable) while a worker dies
     for point, nth in (("poller.loop", 1), ("poller.start", 0), ("writer.loop", 1)):
